@@ -252,10 +252,10 @@ func (r *rw) rewrite(f *ast.File) ([]byte, bool, error) {
 				switch r.pkgOf(se.X) {
 				case "time":
 					switch se.Sel.Name {
-					case "Sleep", "After", "Now", "Since", "Until", "AfterFunc":
+					case "Sleep", "After", "Now", "Since", "Until", "AfterFunc", "NewTimer":
 						x.Fun = sel("vsched", se.Sel.Name)
 						r.changed = true
-					case "NewTimer", "NewTicker", "Tick":
+					case "NewTicker", "Tick":
 						r.fail(x.Pos(), "time.%s is not modelled by vsched", se.Sel.Name)
 					}
 				case "math/rand":
@@ -285,6 +285,10 @@ func (r *rw) rewrite(f *ast.File) ([]byte, bool, error) {
 				} else {
 					r.fail(x.Pos(), "sync/atomic.%s is not modelled by vsched", x.Sel.Name)
 				}
+			}
+			if r.pkgOf(x.X) == "time" && x.Sel.Name == "Timer" {
+				x.X = ast.NewIdent("vsched")
+				r.changed = true
 			}
 			if r.pkgOf(x.X) == "sync" {
 				r.fail(x.Pos(), "direct use of package sync (%s) bypasses internal/sync and the scheduler", x.Sel.Name)
